@@ -54,6 +54,103 @@ var credFns = []credFn{
 	{"roles", "Roles", "SetPassCodeExpiry"},
 }
 
+// credObjects: the types whose values live across calls (one object, many
+// calls).  For each the translator extracts the fields with their types and,
+// for every method, the statements that write through the receiver.
+var credObjects = []struct{ pkg, typ string }{
+	{"signer", "Signer"}, {"signer", "Sessions"}, {"signer", "TimeSigner"}, {"signer", "RSATimeSigner"},
+	{"jwt", "HS256"}, {"identity", "jwtVerifier"}, {"identity", "jwtSigner"}, {"identity", "simpleCore"},
+	{"signin/authgate", "Gate"}, {"signin/authgate", "Exchange"}, {"signin/authgate", "Challenger"},
+	{"roles", "Roles"},
+}
+
+// orderedFields lists (name, type text) of a struct in source order; embedded
+// fields have the empty name.
+func (p *pkg) orderedFields(name string) ([][2]string, bool) {
+	for _, fn := range p.sortedFiles() {
+		for _, d := range p.files[fn].Decls {
+			gd, ok := d.(*ast.GenDecl)
+			if !ok || gd.Tok != token.TYPE {
+				continue
+			}
+			for _, s := range gd.Specs {
+				ts := s.(*ast.TypeSpec)
+				if ts.Name.Name != name {
+					continue
+				}
+				st, ok := ts.Type.(*ast.StructType)
+				if !ok {
+					return nil, false
+				}
+				var out [][2]string
+				for _, f := range st.Fields.List {
+					if len(f.Names) == 0 {
+						out = append(out, [2]string{"", p.src(f.Type)})
+					}
+					for _, n := range f.Names {
+						out = append(out, [2]string{n.Name, p.src(f.Type)})
+					}
+				}
+				return out, true
+			}
+		}
+	}
+	return nil, false
+}
+
+// credRootIdent strips selectors, indexing, dereferences and parentheses.
+func credRootIdent(e ast.Expr) (*ast.Ident, bool) {
+	depth := 0
+	for {
+		switch t := e.(type) {
+		case *ast.Ident:
+			return t, depth > 0
+		case *ast.SelectorExpr:
+			e = t.X
+		case *ast.IndexExpr:
+			e = t.X
+		case *ast.StarExpr:
+			e = t.X
+		case *ast.ParenExpr:
+			e = t.X
+		default:
+			return nil, false
+		}
+		depth++
+	}
+}
+
+// receiverWrites lists the statements of a method that assign through its
+// receiver (s.f = ..., s.f[i] = ..., s.f++, *s = ...).
+func (p *pkg) receiverWrites(fd *ast.FuncDecl) []string {
+	if fd.Recv == nil || len(fd.Recv.List) == 0 || len(fd.Recv.List[0].Names) == 0 || fd.Body == nil {
+		return nil
+	}
+	recv := fd.Recv.List[0].Names[0].Name
+	var out []string
+	through := func(e ast.Expr) bool {
+		id, deeper := credRootIdent(e)
+		return id != nil && deeper && id.Name == recv
+	}
+	ast.Inspect(fd.Body, func(n ast.Node) bool {
+		switch s := n.(type) {
+		case *ast.AssignStmt:
+			for _, l := range s.Lhs {
+				if through(l) {
+					out = append(out, p.src(s))
+					break
+				}
+			}
+		case *ast.IncDecStmt:
+			if through(s.X) {
+				out = append(out, p.src(s))
+			}
+		}
+		return true
+	})
+	return out
+}
+
 // skeleton lists, in source order, what decides the outcome of a function.
 func (p *pkg) skeleton(fd *ast.FuncDecl) []string {
 	var out []string
@@ -179,7 +276,7 @@ func compositeField(fd *ast.FuncDecl, field string, env map[string]constant.Valu
 
 func genCred(repo string) (string, error) {
 	pkgs := map[string]*pkg{}
-	for _, n := range []string{"signer", "jwt", "identity", "roles"} {
+	for _, n := range []string{"signer", "jwt", "identity", "roles", "signin/authgate"} {
 		p, err := loadPkg(filepath.Join(repo, n))
 		if err != nil {
 			return "", err
@@ -245,6 +342,47 @@ func genCred(repo string) (string, error) {
 			b.WriteString(";\n    ")
 		}
 		fmt.Fprintf(&b, "(%s,\n     [ %s ])", coqStr(name), strings.Join(items, ";\n       "))
+	}
+	b.WriteString(" ].\n\n")
+
+	// long-lived objects: fields and writes through the receiver
+	b.WriteString("(* Fields (name, type) of the types whose values live across calls. *)\n")
+	b.WriteString("Definition gen_object_fields : list (string * list (string * string)) :=\n  [ ")
+	for i, o := range credObjects {
+		p := pkgs[o.pkg]
+		fs, ok := p.orderedFields(o.typ)
+		var items []string
+		if !ok {
+			items = append(items, "("+coqStr("?")+", "+coqStr("Unknown missing type")+")")
+		}
+		for _, f := range fs {
+			items = append(items, "("+coqStr(f[0])+", "+coqStr(f[1])+")")
+		}
+		if i > 0 {
+			b.WriteString(";\n    ")
+		}
+		fmt.Fprintf(&b, "(%s, [ %s ])", coqStr(o.pkg+"."+o.typ), strings.Join(items, "; "))
+	}
+	b.WriteString(" ].\n\n")
+	b.WriteString("(* Every method of those types with the statements that assign through its receiver. *)\n")
+	b.WriteString("Definition gen_receiver_writes : list (string * list string) :=\n  [ ")
+	first := true
+	for _, o := range credObjects {
+		p := pkgs[o.pkg]
+		for _, fd := range p.allFuncs() {
+			if recvName(fd) != o.typ {
+				continue
+			}
+			var items []string
+			for _, w := range p.receiverWrites(fd) {
+				items = append(items, coqStr(w))
+			}
+			if !first {
+				b.WriteString(";\n    ")
+			}
+			first = false
+			fmt.Fprintf(&b, "(%s, [ %s ])", coqStr(o.pkg+"."+o.typ+"."+fd.Name.Name), strings.Join(items, "; "))
+		}
 	}
 	b.WriteString(" ].\n")
 	return b.String(), nil
